@@ -24,12 +24,15 @@ BitOf(t, i) == (t[Len(t) - (i \div 8)] \div (2 ^ (i % 8))) % 2
 \* iterative flatten (SequencesExt!FlattenSeq is a depth-n recursive function)
 Flat(ss) == FoldLeft(LAMBDA acc, x : acc \o x, <<>>, ss)
 
+\* TLC keeps [i \in 1..n |-> e] lazy: every Len() or index re-evaluates e.  Mat forces a concrete tuple.
+Mat(s) == s \o <<>>
+
 Sub(s, a, b) == IF a > b THEN <<>> ELSE SubSeq(s, a, b)      \* total SubSeq
 Drop(s, n) == Sub(s, n + 1, Len(s))
 Take(s, n) == Sub(s, 1, IF n < Len(s) THEN n ELSE Len(s))
 
 \* BCD: each byte gives two nibbles
-Nibbles(s) == Flat([i \in 1..Len(s) |-> <<s[i] \div 16, s[i] % 16>>])
+Nibbles(s) == Mat([i \in 1..(2 * Len(s)) |-> IF i % 2 = 1 THEN s[(i + 1) \div 2] \div 16 ELSE s[(i + 1) \div 2] % 16])
 RECURSIVE StripLead(_)
 StripLead(d) == IF Len(d) > 0 /\ d[1] = 0 THEN StripLead(Tail(d)) ELSE d
 \* Bcd2Dec: leading zero digits removed; an all-zero field is kept whole
